@@ -36,12 +36,17 @@ const prelude = `(set-option :produce-models true)
 (define-fun imin ((a Int) (b Int)) Int (ite (<= a b) a b))
 (define-fun imax ((a Int) (b Int)) Int (ite (>= a b) a b))
 (define-fun clamp ((x Int) (lo Int) (hi Int)) Int (ite (< x lo) lo (ite (> x hi) hi x)))
+(declare-fun rootTy (Int) Int)
+(declare-fun eref (Ref Int) Ref)
+(assert (forall ((ea Ref) (ei Int)) (! (= (eref ea ei) (mkref (rbase ea) (+ (roff ea) ei))) :pattern ((eref ea ei)))))
 (declare-fun strlen (Str) Int)
 (declare-fun strcat (Str Str) Str)
 (declare-fun pct (Int) Str)
 (declare-fun isPct (Str) Bool)
 (declare-fun pctNum (Str) Int)
 (declare-fun itoa (Int) Str)
+(declare-fun bytesOf (Str) Slice)
+(declare-fun strOfBytes (Slice) Str)
 (declare-fun atoiOk (Str) Bool)
 (declare-fun atoiVal (Str) Int)
 (declare-fun hasSuffix (Str Str) Bool)
@@ -187,22 +192,40 @@ func emb(r string, k int) string {
 		o, _ := strconv.Atoi(m[2])
 		return fmt.Sprintf("(mkref %s %d)", m[1], o+k)
 	}
+	// (mkref B (+ O n)) -> (mkref B (+ O n+k))
+	if strings.HasPrefix(r, "(mkref ") {
+		parts := splitTop(r[1 : len(r)-1])
+		if len(parts) == 3 {
+			b, o := parts[1], parts[2]
+			if strings.HasPrefix(o, "(+ ") {
+				op := splitTop(o[1 : len(o)-1])
+				if len(op) == 3 {
+					if n, err := strconv.Atoi(op[2]); err == nil {
+						return fmt.Sprintf("(mkref %s (+ %s %d))", b, op[1], n+k)
+					}
+				}
+			}
+			if n, err := strconv.Atoi(o); err == nil {
+				return fmt.Sprintf("(mkref %s %d)", b, n+k)
+			}
+			return fmt.Sprintf("(mkref %s (+ %s %d))", b, o, k)
+		}
+	}
 	return fmt.Sprintf("(mkref (rbase %s) (+ (roff %s) %d))", r, r, k)
 }
 
 // embDyn: reference at dynamic element index idx with element size sz.
 func embDyn(r string, idx string, sz int) string {
-	if idx == "0" {
-		return r
-	}
-	if n, err := strconv.Atoi(idx); err == nil {
+	if n, err := strconv.Atoi(idx); err == nil && !strings.HasPrefix(r, "(sarr ") {
 		return emb(r, n*sz)
 	}
 	off := idx
 	if sz != 1 {
 		off = fmt.Sprintf("(* %s %d)", idx, sz)
 	}
-	return fmt.Sprintf("(mkref (rbase %s) (+ (roff %s) %s))", r, r, off)
+	// eref is defined by a triggered axiom in the prelude: (eref a i) = (mkref (rbase a) (+ (roff a) i));
+	// keeping the application explicit gives quantified contracts over slice elements a reliable e-matching trigger
+	return fmt.Sprintf("(eref %s %s)", r, off)
 }
 
 func sel(arr, idx string) string       { return "(select " + arr + " " + idx + ")" }
@@ -237,10 +260,12 @@ type Query struct {
 	lits     map[string]string // string literal -> const name
 	litOrder []string
 	fresh    int
+	recFuns  map[string]string // body text -> function name
+	recDefs  []string
 }
 
 func newQuery() *Query {
-	q := &Query{declared: map[string]string{}, lits: map[string]string{}}
+	q := &Query{declared: map[string]string{}, lits: map[string]string{}, recFuns: map[string]string{}}
 	q.lit("")
 	return q
 }
@@ -274,6 +299,18 @@ func sanitize(s string) string { return sanRe.ReplaceAllString(s, "_") }
 func (q *Query) freshConst(hint, sort string) string {
 	q.fresh++
 	return q.declare(fmt.Sprintf("%s!%d", sanitize(hint), q.fresh), sort)
+}
+
+// recFun: sum function f(j) = ite(j <= 0, 0, f(j-1) + body) where body mentions j through the bound variable bv.
+func (q *Query) recFun(bv, body string) string {
+	key := bv + "|" + body
+	if n, ok := q.recFuns[key]; ok {
+		return n
+	}
+	n := fmt.Sprintf("sumf_%d", len(q.recFuns)+1)
+	q.recFuns[key] = n
+	q.recDefs = append(q.recDefs, fmt.Sprintf("(define-fun-rec %s ((%s Int)) Int (ite (<= %s 0) 0 (+ (%s (- %s 1)) %s)))", n, bv, bv, n, bv, body))
+	return n
 }
 
 func (q *Query) assert(t string) {
